@@ -10,10 +10,14 @@ for _f in sorted(glob.glob(os.path.join(os.path.dirname(os.path.abspath(__file__
     if os.path.basename(_f)[:-3] not in md.READY_FAMILIES:
         continue  # family still under construction: not claimed
     _m = importlib.import_module(os.path.basename(_f)[:-3])
+    if getattr(_m, "ENGINE", None) and not any(e["name"] == _m.ENGINE["name"] for e in md.ENGINES):
+        md.ENGINES.append(_m.ENGINE)
     for pid, c in getattr(_m, "MANIFEST", {}).items():
         md.CLAIMS[pid] = c
         md.NOT_APPLICABLE.pop(pid, None)
 checks = []
+for e in md.ENGINES:
+    e["serves_properties"] = sorted(p for p, c in md.CLAIMS.items() if c["engine"] == e["name"]) or e.get("serves_properties", [])
 for pid in sorted(md.CLAIMS):
     c = md.CLAIMS[pid]
     checks.append(dict(
